@@ -79,6 +79,8 @@ func vValue(h *zz.H, name string, arms int) *pb.TypedValue {
 		return &pb.TypedValue{Value: &pb.TypedValue_BoolVal{BoolVal: h.Bool(name + "_b")}}
 	case 3:
 		return &pb.TypedValue{Value: &pb.TypedValue_DoubleVal{DoubleVal: h.Float64(name + "_d")}}
+	case 4:
+		return &pb.TypedValue{Value: &pb.TypedValue_DecimalVal{DecimalVal: &pb.Decimal64{Digits: h.Int64(name + "_digits"), Precision: h.Uint32(name + "_prec")}}}
 	default:
 		return nil
 	}
